@@ -24,9 +24,8 @@
    [n] nested dispatches into function values.  The transcribed bodies are parameterised by
    the triple one level down (Section Step, variable R).
 
-   Not modelled: call sections whose callee is the hole ( _(a, b) ), chain sections with
-   more than one operator (the pending-operator stack is C03's model), index/slice/update
-   sections, Parallel/Fanout/OnFanoutConst/Memoized/Type/StructField/SymbolAccess. *)
+   Not modelled: chain sections with more than one operator (the pending-operator stack is
+   C03's model), index/slice/update sections, Memoized/Type/StructField/SymbolAccess. *)
 From Coq Require Import List Bool.
 From NV Require Import Common.Outcome.
 Import ListNotations.
@@ -43,7 +42,15 @@ Inductive known :=
 | KCompR     (* >>>           TwoArgBuiltin     (f, g) -> Composition(g, f) *)
 | KCompL     (* <<<           TwoArgBuiltin     (f, g) -> Composition(f, g) *)
 | KId        (* id            OneArgBuiltin     |a| Ok(a) *)
-| KFlip.     (* flip          OneArgBuiltin     Func f -> Flip(f) *)
+| KFlip      (* flip          OneArgBuiltin     Func f -> Flip(f) *)
+| KOn.       (* on            TwoArgBuiltin     (f, g) -> OnComposition(f, g) *)
+
+(* builtins with only the vector entry point that BUILD function values from all their arguments *)
+Inductive comb :=
+| CParallel  (* ***   struct Parallel: all arguments functions -> Func::Parallel(args) *)
+| CFanout    (* &&&   struct Fanout:   all arguments functions -> Func::Fanout(args) *)
+| CLift.     (* lift  struct Lift: one argument -> PartialAppLast(lift, a);
+                      more -> the last must be a function f -> OnFanoutConst(f, the others) *)
 
 Section Apply.
 Variable B : Type.   (* opaque builtins (Rc<dyn Builtin>) *)
@@ -67,6 +74,12 @@ with func :=
 | FListSection (slots : list slot)
 | FChainSection (seed : option val) (op : func) (opd : option val)   (* one operator *)
 | FCallSection (callee : val) (slots : list slot)                    (* callee present *)
+| FOnComposition (f g : func)
+| FParallel (fs : list func)
+| FFanout (fs : list func)
+| FOnFanoutConst (f : func) (gs : list val)
+| FCombinator (c : comb)
+| FCallSectionHole (slots : list slot)                               (* _(...): the callee is the first argument *)
 with slot :=
 | SVal (v : val)          (* Ok(obj) *)
 | SHole (is_splat : bool) (* Err(is_splat) *).
@@ -104,6 +117,29 @@ Fixpoint apply_section (slots : list slot) (args : list val) : outcome (list val
     end
   end.
 
+Fixpoint funcs_of (l : list val) : option (list func) :=
+  match l with
+  | [] => Some []
+  | VFunc f :: r => match funcs_of r with Some fs => Some (f :: fs) | None => None end
+  | _ :: _ => None
+  end.
+
+(* lib.rs: Parallel::run, Fanout::run, Lift::run *)
+Definition comb_run (c : comb) (args : list val) : outcome val :=
+  match c with
+  | CParallel => match funcs_of args with Some fs => Ok (VFunc (FParallel fs)) | None => Err EType end
+  | CFanout => match funcs_of args with Some fs => Ok (VFunc (FFanout fs)) | None => Err EType end
+  | CLift =>
+    match args with
+    | [] => Err EType
+    | [a] => Ok (VFunc (FPartialAppLast (FCombinator CLift) a))
+    | _ => match last args (VList []) with
+           | VFunc f => Ok (VFunc (FOnFanoutConst f (removelast args)))
+           | _ => Err EType
+           end
+    end
+  end.
+
 Record runners := {
   r_run : func -> list val -> outcome val;
   r_run1 : func -> val -> outcome val;
@@ -133,6 +169,9 @@ Definition known_body2 (k : known) (a b : val) : outcome val :=
   | KCompL => match a, b with
               | VFunc f, VFunc g => Ok (VFunc (FComposition f g))
               | _, _ => Err EType end
+  | KOn => match a, b with
+           | VFunc f, VFunc g => Ok (VFunc (FOnComposition f g))
+           | _, _ => Err EType end
   | KId | KFlip => Err EArg   (* not two-argument builtins *)
   end.
 Definition known_body1 (k : known) (a : val) : outcome val :=
@@ -160,6 +199,12 @@ Definition known_run1 (k : known) (a : val) : outcome val :=
   if is_one_arg k then known_body1 k a else known_run k [a].
 Definition known_run2 (k : known) (a b : val) : outcome val :=
   if is_one_arg k then known_run k [a; b] else known_body2 k a b.
+
+Fixpoint zip_run1 (fs : list func) (l : list val) : outcome (list val) :=
+  match fs, l with
+  | f :: fs', a :: l' => r <- r_run1 R f a ;; rest <- zip_run1 fs' l' ;; Ok (r :: rest)
+  | _, _ => Ok []
+  end.
 
 (* eval.rs impl Func { pub fn run } *)
 Definition func_run (f : func) (args : list val) : outcome val :=
@@ -205,6 +250,34 @@ Definition func_run (f : func) (args : list val) : outcome val :=
     end
   | FCallSection callee slots =>
     real_args <- apply_section slots args ;; call callee real_args
+  | FOnComposition g h =>
+    mapped_args <- mapM (fun e => r_run1 R h e) args ;; r_run R g mapped_args
+  | FParallel fs =>
+    match args with              (* few(args) *)
+    | [] => Err EArg
+    | [x] =>                     (* one sequence of exactly as many elements as functions *)
+      match x with
+      | VFunc _ => Err EType
+      | _ => match to_iter x with
+             | Ok l => if Nat.eqb (length l) (length fs)
+                       then res <- zip_run1 fs l ;; Ok (VList res) else Err EType
+             | Err _ => Err EType
+             | Panic => Panic
+             | OutOfFuel => OutOfFuel
+             end
+      end
+    | _ => res <- zip_run1 fs args ;; Ok (VList res)     (* zip: surplus functions/arguments are ignored *)
+    end
+  | FFanout fs => res <- mapM (fun g => r_run R g args) fs ;; Ok (VList res)
+  | FOnFanoutConst g gs =>
+    mapped_args <- mapM (fun x => match x with VFunc gf => r_run R gf args | _ => Ok x end) gs ;;
+    r_run R g mapped_args
+  | FCombinator c => comb_run c args
+  | FCallSectionHole slots =>
+    match args with
+    | [] => Err EArg
+    | callee :: it => real_args <- apply_section slots it ;; call callee real_args
+    end
   end.
 
 (* eval.rs impl Func { pub fn run1; pub fn run2 } *)
@@ -261,6 +334,7 @@ Inductive expr :=
 | ECall (f : expr) (args : list arg)
 | EChain (a : option expr) (op : expr) (b : option expr)   (* one operator *)
 | EList (xs : list arg)
+| ECallHole (args : list arg)                              (* _(args): call section with a hole callee *)
 with arg :=
 | ANorm (e : expr)
 | ASplat (e : expr)    (* ...e *)
@@ -335,6 +409,12 @@ Fixpoint eval (e : expr) : outcome val :=
     match acc with
     | inl v => Ok (VList v)
     | inr slots => Ok (VFunc (FListSection slots))
+    end
+  | ECallHole args =>        (* (None, Ok(v)) | (None, Err(v)) => CallSection(None, ..) *)
+    acc <- sse args (inl []) ;;
+    match acc with
+    | inl v => Ok (VFunc (FCallSectionHole (map SVal v)))
+    | inr slots => Ok (VFunc (FCallSectionHole slots))
     end
   end.
 
@@ -444,12 +524,17 @@ Definition holes (l : list (val * bool)) : list val := map fst (filter snd l).
 Definition form_sect_mask f (l : list (val * bool)) :=                           (* f(a, _, c, _)(b, d) *)
   ECall (ECall (Fv f) (map mask_arg l)) (norm (holes l)).
 
+(* _(a, _, c)(f, b): a call section whose callee is the hole *)
+Definition form_hole_callee f (l : list (val * bool)) :=
+  ECall (ECallHole (map mask_arg l)) (ANorm (Fv f) :: norm (holes l)).
+
 Definition converges (n_e : nat -> outcome val) (r : outcome val) : Prop :=
   exists n, n_e n = r /\ r <> OutOfFuel.
 
 End Apply.
 
 Arguments FKnown {B C D} k.
+Arguments FCombinator {B C D} c.
 Arguments SHole {B C D} is_splat.
 Arguments AHole {B C D}.
 Arguments ASplatHole {B C D}.
